@@ -114,6 +114,15 @@ def judge(run: Run, res, gen: str) -> None:
     case = {"files": files, "flags": flags, "minor": minor, "gen": gen}
     o_d, o_n = res["outs"][False], res["outs"][True]
     run.count()
+    # the repository's own runner skips cases named *_no_native_parse under --native-parser: acknowledged divergences,
+    # one listed class (still evaluated and counted); position invariants of each single run are judged as usual
+    marked = "_no_native_parse" in gen
+
+    def report(sg, case_, text):
+        if marked and not sg.startswith("position|"):
+            sg = "upstream-marked|corpus-case-named-no_native_parse"
+        return run.report(sg, case_, text)
+
     for native, o in ((False, o_d), (True, o_n)):
         st, ds, rest, err = o
         if st not in (0, 1, 2) or "Traceback (most recent call last)" in err or "INTERNAL ERROR" in err or any("INTERNAL ERROR" in r for r in rest):
@@ -132,7 +141,7 @@ def judge(run: Run, res, gen: str) -> None:
                 sg = "position|syntax-error-line-past-eof|native"
             else:
                 sg = "position|%s|%s|%s" % (kind, "syntax" if syn else (x.code or "nocode"), "native" if native else "default")
-            run.report(sg, dict(case, native=native), "%s parser: %s for diagnostic %s (file has %d lines)" % ("native" if native else "default", kind, tuple(x), len(file_lines(files.get(x.file, "")))))
+            report(sg, dict(case, native=native), "%s parser: %s for diagnostic %s (file has %d lines)" % ("native" if native else "default", kind, tuple(x), len(file_lines(files.get(x.file, "")))))
     syn_d = any(is_syntax(t) for t in dd)
     syn_n = any(is_syntax(t) for t in dn)
     blocked_d = o_d[0] == 2
@@ -144,6 +153,14 @@ def judge(run: Run, res, gen: str) -> None:
             firsts = [t for t in (dd if syn_d else dn) if is_syntax(t)][:1]
             msg = firsts[0][6] if firsts else ""
             cls = re.sub(r"[\"'].*?[\"']", "S", msg)[:60]
+            if cls.lower() == "invalid syntax" and firsts:
+                # too generic a message to name a root cause: add the token shape at the reported position
+                import keyword
+
+                ls_ = file_lines(files.get(firsts[0][0], ""))
+                lt_ = ls_[firsts[0][1] - 1] if 0 < firsts[0][1] <= len(ls_) else ""
+                toks = re.findall(r"[A-Za-z_]\w*|\d+|\S", lt_)[:3]
+                cls += "|at:" + " ".join(t if (keyword.iskeyword(t) or not (t[0].isalpha() or t[0] == "_")) else "N" for t in toks)
             allmsgs = " ".join(t[6] for t in dd + dn if is_syntax(t))
             if syn_d and syn_n and blocked_d and not blocked_n and ("only supported in Python 3" in allmsgs or "requires Python 3" in allmsgs):
                 sg = "accept-reject|version-gated-syntax-blocking-only-with-default-parser"
@@ -152,7 +169,7 @@ def judge(run: Run, res, gen: str) -> None:
                 sg = "accept-reject|host-python-cannot-parse-newer-syntax"
             else:
                 sg = "accept-reject|only-%s-rejects|%s" % (which, cls)
-            run.report(sg, case, "blocking syntax error only with the %s parser: default=%s native=%s" % (which, [t for t in dd if is_syntax(t)][:2], [t for t in dn if is_syntax(t)][:2]))
+            report(sg, case, "blocking syntax error only with the %s parser: default=%s native=%s" % (which, [t for t in dd if is_syntax(t)][:2], [t for t in dn if is_syntax(t)][:2]))
         if syn_d and syn_n:
             run.nontriv(chash([files, minor]))
         return
@@ -174,7 +191,7 @@ def judge(run: Run, res, gen: str) -> None:
             src_lines = file_lines(files.get(first[0], ""))
             line_text = src_lines[first[1] - 1] if 0 < first[1] <= len(src_lines) else ""
             if samemsg and any(ord(ch) > 127 for ch in line_text):
-                run.report("tuple|position-differs|non-ascii-line", case, "columns differ on a line with non-ASCII characters: only default: %s ; only native: %s" % (only_d[:2], only_n[:2]))
+                report("tuple|position-differs|non-ascii-line", case, "columns differ on a line with non-ASCII characters: only default: %s ; only native: %s" % (only_d[:2], only_n[:2]))
                 return
             sg = "tuple|%s|%s|only-%s|%s" % ("position-differs" if samemsg else "message-differs", ",".join(codes[:3]), "default" if only_d and not only_n else ("native" if only_n and not only_d else "both"), norm)
             if samemsg and len(only_d) == len(only_n):
@@ -192,7 +209,7 @@ def judge(run: Run, res, gen: str) -> None:
                         sg = "tuple|position-differs|genexp-sole-argument-includes-call-parenthesis"
                     elif all(a[2] is not None and b[2] == a[2] + 1 and char_at(a) == "{" for a, b in zip(pd, pn)):
                         sg = "tuple|position-differs|fstring-debug-expression-column"
-        run.report(sg, case, "diagnostics differ (python 3.%d): only default: %s ; only native: %s" % (minor, only_d[:3], only_n[:3]))
+        report(sg, case, "diagnostics differ (python 3.%d): only default: %s ; only native: %s" % (minor, only_d[:3], only_n[:3]))
         return
     # end positions
     for a, b in zip(dd, dn):
@@ -200,9 +217,12 @@ def judge(run: Run, res, gen: str) -> None:
             zero_width_default = a[3] == a[1] and a[4] is not None and a[2] is not None and a[4] <= a[2] + 1
             end_lines = file_lines(files.get(a[0], ""))
             end_text = end_lines[a[3] - 1] if a[3] and 0 < a[3] <= len(end_lines) else ""
-            semi = a[3] == b[3] and a[4] is not None and b[4] is not None and a[4] == b[4] + 1 and end_text.split("#")[0].rstrip().endswith(";")
-            sg = "end-position|default-parser-zero-width" if zero_width_default else ("end-position|trailing-semicolon" if semi else "end-position|other|%s" % (a[7] or "nocode"))
-            run.report(sg, case, "end position differs: default %s, native %s" % (a, b))
+            # what lies between the two end columns (same line, default further right)?
+            seg = end_text[b[4] : a[4]] if a[3] == b[3] and a[4] is not None and b[4] is not None and a[4] > b[4] else ""
+            semi = bool(seg) and ";" in seg and not seg.strip(" \t;")
+            paren = bool(seg) and ")" in seg and not seg.strip(" \t)")
+            sg = "end-position|default-parser-zero-width" if zero_width_default else ("end-position|trailing-semicolon" if semi else ("end-position|closing-parenthesis-of-last-operand" if paren else "end-position|other|%s" % (a[7] or "nocode")))
+            report(sg, case, "end position differs: default %s, native %s" % (a, b))
             break
 
 
@@ -273,7 +293,7 @@ def run(run: Run) -> None:
     for c in rnd.sample(cases, 40 if q else 3000):
         files = dict(c.files)
         files["main.py"] = pysyntax.corrupt(files["main.py"], rnd)
-        work.append(("corpus+corrupt", (c.name + "+corrupt", files, [], 12)))
+        work.append(("corpus+corrupt:" + c.name, (c.name + "+corrupt", files, [], 12)))
     for gen, files, fl, minor in gen_syntax_cases(run.seed, 120 if q else 5000, 0.3):
         work.append((gen, ("g3", files, fl, minor)))
     run.label("cases", len(work))
